@@ -457,6 +457,6 @@ def sweep_family(tier):
                 sizes = sorted(set(list(range(lo, m + 3)) + [m + 10, 300]))
             for s in sizes:
                 items.append(runner.Item(('sweep', name, tuple(a), s), src, sa, s=s,
-                                         meta={'family': 'sweep_' + name, 'min_stack': m, 'allow_exhausted': True,
+                                         meta={'family': 'sweep_' + name, 'min_stack': m, 'allow_exhausted': 'prefix',
                                                'classifier': {'sweep': name}}))
     return items
